@@ -211,7 +211,9 @@ Definition disk_io_counters (perdisk : bool) (sysblock : bytes -> bool) (src : d
   do raw <- disk_raw perdisk sysblock src; front sdiskio_fields perdisk raw.
 
 (* ------------------------------------------------ disk_usage *)
-Record statvfs := { f_frsize : Z; f_blocks : Z; f_bfree : Z; f_bavail : Z }.
+(* os.statvfs result: f_bsize (preferred I/O block size) and f_frsize (fragment size, the unit of
+   f_blocks / f_bfree / f_bavail) are independent fields; the code uses f_frsize only *)
+Record statvfs := { f_bsize : Z; f_frsize : Z; f_blocks : Z; f_bfree : Z; f_bavail : Z }.
 (* percent is kept exact: None = the ZeroDivisionError branch (0.0), Some (n, d) = n/d before round(_, 1) *)
 Record usage := { u_total : Z; u_used : Z; u_free : Z; u_percent : option (Z * Z) }.
 
